@@ -164,11 +164,15 @@ fn rawrow<T: Cx>(rec: &mut Rec, base: u32, n: u32) {
     let n = n as usize;
     let (mut rt, mut rt2) = (Vec::with_capacity(n), Vec::with_capacity(n));
     let (mut c1, mut c2, mut c3) = (Vec::with_capacity(n), vec![], vec![]);
+    let mut beq: Vec<u8> = Vec::with_capacity(n);
     for k in 0..n {
         let c = T::from_raw_value(base + k as u32);
         let r = c.raw_inner();
         rt.push(r);
         rt2.push(T::from_raw_value(r).raw_inner());
+        // colour -> raw -> colour compared with the library's own PartialEq (also for colours that
+        // were made from raw values with unused bits set)
+        beq.push((T::from_raw_value(r) == c) as u8);
         let ch_obs = c.chans();
         c1.push(ch_obs[0]);
         if T::NCH == 3 {
@@ -179,7 +183,7 @@ fn rawrow<T: Cx>(rec: &mut Rec, base: u32, n: u32) {
     rec.note_n("raw_values", n as u64);
     rec.ev(
         "rawrow",
-        json!({"ty": T::NAME, "base": base, "n": n, "rt": ints(&rt), "rt2": ints(&rt2),
+        json!({"ty": T::NAME, "base": base, "n": n, "rt": ints(&rt), "rt2": ints(&rt2), "beq": ints(&beq),
                "c1": ints(&c1), "c2": ints(&c2), "c3": ints(&c3)}),
     );
 }
